@@ -95,6 +95,7 @@ func c04(c *eng.Ctx, r *eng.Report) {
 		"R4.3 every journal entry type is appended somewhere and its undo performs exactly the paired raw writes; " +
 		"R4.4 a map-typed journaled field whose size/emptiness is observable needs an undo that can delete from it; " +
 		"R4.5/R4.6 RevertToSnapshot undoes entries from the last down to the snapshot index inclusive and truncates both journal and revision list; Snapshot records len(journal). " +
+		"R4.7 every state read that feeds a member of a journal entry happens before any write (direct or through a package callee) to the same field in that mutator — the entry captures the pre-state. " +
 		"Not decided: value equality of every query after revert; equality of state roots."
 	r.Assume = []string{"state reachable through the account package's API lives in the fields listed in rules/c04.go (journaledFields)", "sync.Map/maps are only written through the recognised instructions"}
 	c04Writers(c, r)
@@ -102,6 +103,7 @@ func c04(c *eng.Ctx, r *eng.Report) {
 	c04Undo(c, r)
 	c04Shrink(c, r)
 	c04Revert(c, r)
+	c04PreState(c, r)
 }
 
 func shortStruct(t string) string { return strings.TrimPrefix(t, "storage/account.") }
@@ -655,5 +657,146 @@ func c04Revert(c *eng.Ctx, r *eng.Report) {
 			}
 		}
 		r.Check(ok, "R4.6", "Snapshot:journalIndex", c.Pos(snap.Pos()), "Snapshot records len(adb.transitions)", "Snapshot no longer records len(adb.transitions) as the revision's journal index")
+	}
+}
+
+// c04PreState: a journal entry records the state *before* the change. Every
+// field read that feeds a `prev…` member of the entry must therefore not be
+// preceded, on any path through the mutator, by a write to that same field —
+// neither a direct store nor a call of a package function that stores it.
+func c04PreState(c *eng.Ctx, r *eng.Report) {
+	const rule = "R4.7"
+	r.Min(rule, 10)
+	// fields stored by each function of the package, then closed over static callees
+	direct := map[*ssa.Function]map[string]bool{}
+	fns := c.PkgFuncs("storage/account")
+	for _, fn := range fns {
+		m := map[string]bool{}
+		for _, b := range fn.Blocks {
+			for _, in := range b.Instrs {
+				switch x := in.(type) {
+				case *ssa.Store:
+					if t, f := eng.FieldOf(x.Addr); t != "" {
+						m[t+"."+f] = true
+					}
+				case *ssa.MapUpdate:
+					if u, ok := x.Map.(*ssa.UnOp); ok {
+						if t, f := eng.FieldOf(u.X); t != "" {
+							m[t+"."+f] = true
+						}
+					}
+				}
+			}
+		}
+		direct[fn] = m
+	}
+	var writes func(fn *ssa.Function, depth int, seen map[*ssa.Function]bool) map[string]bool
+	writes = func(fn *ssa.Function, depth int, seen map[*ssa.Function]bool) map[string]bool {
+		out := map[string]bool{}
+		if fn == nil || seen[fn] || depth > 3 {
+			return out
+		}
+		seen[fn] = true
+		for k := range direct[fn] {
+			out[k] = true
+		}
+		for _, s := range eng.Sites(fn) {
+			if st := s.Static(); st != nil && direct[st] != nil {
+				for k := range writes(st, depth+1, seen) {
+					out[k] = true
+				}
+			}
+		}
+		return out
+	}
+	for _, fn := range fns {
+		if c.IsTestFunc(fn) || isUndo(fn) {
+			continue
+		}
+		for _, b := range fn.Blocks {
+			for _, in := range b.Instrs {
+				mi, ok := in.(*ssa.MakeInterface)
+				if !ok {
+					continue
+				}
+				if n, isN := mi.Type().(*types.Named); !isN || n.Obj().Name() != "transitionEntry" {
+					continue
+				}
+				ety, isN := mi.X.Type().(*types.Named)
+				if !isN {
+					continue
+				}
+				// the entry is a load of a composite literal: gather the values stored into its members
+				var vals []ssa.Value
+				if u, isU := mi.X.(*ssa.UnOp); isU {
+					if al, isA := u.X.(*ssa.Alloc); isA {
+						for _, ref := range *al.Referrers() {
+							if fa, isFA := ref.(*ssa.FieldAddr); isFA {
+								for _, r2 := range *fa.Referrers() {
+									if st, isSt := r2.(*ssa.Store); isSt && st.Addr == ssa.Value(fa) {
+										vals = append(vals, st.Val)
+									}
+								}
+							}
+						}
+					}
+				}
+				// loads of state fields feeding those values
+				type ld struct {
+					key string
+					in  ssa.Instruction
+				}
+				var loads []ld
+				seen := map[ssa.Value]bool{}
+				var walk func(v ssa.Value, d int)
+				walk = func(v ssa.Value, d int) {
+					if v == nil || d > 5 || seen[v] {
+						return
+					}
+					seen[v] = true
+					if u, isU := v.(*ssa.UnOp); isU && u.Op == token.MUL {
+						if t, f := eng.FieldOf(u.X); t != "" && strings.HasPrefix(t, "storage/account.") {
+							loads = append(loads, ld{t + "." + f, u})
+						}
+					}
+					if inst, isI := v.(ssa.Instruction); isI {
+						var ops []*ssa.Value
+						for _, o := range inst.Operands(ops) {
+							if *o != nil {
+								walk(*o, d+1)
+							}
+						}
+					}
+				}
+				for _, v := range vals {
+					walk(v, 0)
+				}
+				key := fmt.Sprintf("pre-state:%s:%s", eng.FuncName(fn), ety.Obj().Name())
+				bad := ""
+				var badPos token.Pos
+				for _, l := range loads {
+					for _, b2 := range fn.Blocks {
+						for _, i2 := range b2.Instrs {
+							if i2 == l.in || !(eng.Dominates(i2, l.in) || eng.Reaches(i2, l.in)) {
+								continue
+							}
+							switch x := i2.(type) {
+							case *ssa.Store:
+								if t, f := eng.FieldOf(x.Addr); t+"."+f == l.key {
+									bad, badPos = "field "+shortStruct(l.key)+" is stored before the entry reads it", x.Pos()
+								}
+							case *ssa.Call:
+								if st := x.Call.StaticCallee(); st != nil && direct[st] != nil {
+									if writes(st, 0, map[*ssa.Function]bool{})[l.key] {
+										bad, badPos = eng.FuncName(st)+", which writes "+shortStruct(l.key)+", is called before the entry reads that field", x.Pos()
+									}
+								}
+							}
+						}
+					}
+				}
+				r.Check(bad == "", rule, key, c.Pos(pick(badPos, mi.Pos())), fmt.Sprintf("the %d state reads captured by the entry precede every write to those fields", len(loads)), "journal entry "+ety.Obj().Name()+" built in "+eng.FuncName(fn)+" does not capture the pre-state: "+bad+"; undo then restores the already-modified value and the change survives RevertToSnapshot")
+			}
+		}
 	}
 }
